@@ -852,7 +852,7 @@ type Dyn = Arc<dyn ErasedCtxt + Send + Sync>;
 type DynRef = &'static (dyn ErasedCtxt + Send + Sync);
 
 /// The erased ctxts of three ambient slots (`emit::setup().with_ctxt(..).init_slot(&slot)`, then
-/// `slot.get().ctxt()`), initialised once per process: `shared()`, and two `new()` instances.
+/// `slot.get().ctxt()`), initialised once per process: `shared()`, a `new()` instance and `emit::setup()`'s own default context.
 fn slot_ctxts() -> Vec<DynRef> {
     use emit::runtime::AmbientSlot;
     static SLOTS: [AmbientSlot; 3] = [AmbientSlot::new(), AmbientSlot::new(), AmbientSlot::new()];
@@ -860,7 +860,8 @@ fn slot_ctxts() -> Vec<DynRef> {
     INIT.call_once(|| {
         let _ = emit::setup().with_ctxt(ThreadLocalCtxt::shared()).init_slot(&SLOTS[0]);
         let _ = emit::setup().with_ctxt(ThreadLocalCtxt::new()).init_slot(&SLOTS[1]);
-        let _ = emit::setup().with_ctxt(ThreadLocalCtxt::new()).init_slot(&SLOTS[2]);
+        // the default context of `emit::setup()` itself
+        let _ = emit::setup().init_slot(&SLOTS[2]);
     });
     SLOTS.iter().map(|s| *s.get().ctxt()).collect()
 }
@@ -900,7 +901,9 @@ fn run_c03(line: &str) -> String {
             return None;
         }
         let prog = parse_list(args[1].as_list()?, parse_p)?;
-        let base = [ThreadLocalCtxt::shared(), ThreadLocalCtxt::new(), ThreadLocalCtxt::new()];
+        // the three public constructors: `shared()` (the one process-wide instance), `new()`, `Default::default()`
+        // (what `emit::setup()` builds) — the latter two must be fresh instances, isolated from each other and from shared
+        let base = [ThreadLocalCtxt::shared(), ThreadLocalCtxt::new(), ThreadLocalCtxt::default()];
         Some(match args[0].as_atom()? {
             "concrete" => run_with::<ThreadLocalCtxt>(base.to_vec(), prog),
             "erased" => run_with::<Dyn>(base.iter().map(|c| Arc::new(*c) as Dyn).collect(), prog),
